@@ -428,8 +428,9 @@ fn answer(a: &Ask) -> Result<(), String> {
     }
 }
 
-/// One execution of the workload under the scheduler described by (policy, sched_seed, explicit).
-pub fn execute(w: &Workload, policy: Policy, sched_seed: u64, explicit: &[(u32, u32)]) -> Outcome {
+/// Runs `body` as the main task of one execution of the thread engine under the scheduler
+/// described by (policy, sched_seed, explicit); returns the schedule log and the panic, if any.
+pub fn run_under(policy: Policy, sched_seed: u64, explicit: &[(u32, u32)], body: impl FnOnce() + Send + 'static) -> (SchedLog, Option<String>) {
     let log = Arc::new(Mutex::new(SchedLog::default()));
     let mut rng = Rng::new(sched_seed ^ 0x5c4e_d01e);
     let mut change_points = BTreeSet::new();
@@ -449,32 +450,15 @@ pub fn execute(w: &Workload, policy: Policy, sched_seed: u64, explicit: &[(u32, 
         step: 0,
         log: log.clone(),
     };
-    let wrong: Arc<Mutex<Vec<(String, String, String)>>> = Arc::new(Mutex::new(vec![]));
-    let answers = Arc::new(std::sync::atomic::AtomicU64::new(0));
-    let (w2, wrong2, answers2) = (w.clone(), wrong.clone(), answers.clone());
     crate::world::PANIC_INFO.with(|p| *p.borrow_mut() = None);
     let was_in_sim = crate::world::IN_SIM.with(|f| f.replace(true));
     let r = std::panic::catch_unwind(std::panic::AssertUnwindSafe(move || {
         let runner = shuttle::Runner::new(sched, config());
+        // (the engine wants a body it could run again; this scheduler offers one execution)
+        let cell = Mutex::new(Some(body));
         runner.run(move || {
-            let mut hs = vec![];
-            for (ti, seq) in w2.threads.iter().cloned().enumerate() {
-                let (wrong, answers) = (wrong2.clone(), answers2.clone());
-                hs.push(shuttle::thread::spawn(move || {
-                    for (k, a) in seq.iter().enumerate() {
-                        answers.fetch_add(1, std::sync::atomic::Ordering::Relaxed);
-                        if let Err(e) = answer(a) {
-                            let table = match a {
-                                Ask::Max { table, .. } => table.to_string(),
-                                Ask::Dir { .. } => "LANGS_CHARACTER_DIRECTION_RTL".to_string(),
-                            };
-                            wrong.lock().unwrap().push((a.label().to_string(), table, format!("caller thread {} call {}: {}", ti, k, e)));
-                        }
-                    }
-                }));
-            }
-            for h in hs {
-                let _ = h.join();
+            if let Some(f) = cell.lock().unwrap().take() {
+                f()
             }
         });
     }));
@@ -490,6 +474,35 @@ pub fn execute(w: &Workload, policy: Policy, sched_seed: u64, explicit: &[(u32, 
         ),
     };
     let log = log.lock().unwrap().clone();
+    (log, panic)
+}
+
+/// One execution of the workload under the scheduler described by (policy, sched_seed, explicit).
+pub fn execute(w: &Workload, policy: Policy, sched_seed: u64, explicit: &[(u32, u32)]) -> Outcome {
+    let wrong: Arc<Mutex<Vec<(String, String, String)>>> = Arc::new(Mutex::new(vec![]));
+    let answers = Arc::new(std::sync::atomic::AtomicU64::new(0));
+    let (w2, wrong2, answers2) = (w.clone(), wrong.clone(), answers.clone());
+    let (log, panic) = run_under(policy, sched_seed, explicit, move || {
+        let mut hs = vec![];
+        for (ti, seq) in w2.threads.iter().cloned().enumerate() {
+            let (wrong, answers) = (wrong2.clone(), answers2.clone());
+            hs.push(shuttle::thread::spawn(move || {
+                for (k, a) in seq.iter().enumerate() {
+                    answers.fetch_add(1, std::sync::atomic::Ordering::Relaxed);
+                    if let Err(e) = answer(a) {
+                        let table = match a {
+                            Ask::Max { table, .. } => table.to_string(),
+                            Ask::Dir { .. } => "LANGS_CHARACTER_DIRECTION_RTL".to_string(),
+                        };
+                        wrong.lock().unwrap().push((a.label().to_string(), table, format!("caller thread {} call {}: {}", ti, k, e)));
+                    }
+                }
+            }));
+        }
+        for h in hs {
+            let _ = h.join();
+        }
+    });
     let wrong = wrong.lock().unwrap().clone();
     Outcome {
         answers: answers.load(std::sync::atomic::Ordering::Relaxed),
@@ -1017,4 +1030,119 @@ pub fn replay(j: &serde_json::Value) -> Result<Vec<Violation>, String> {
     let fork = library_process_state().is_some();
     let o = execute_isolated(&w, Policy::Explicit, 0, &dev, fork);
     Ok(violation_of(&o).into_iter().collect())
+}
+
+#[cfg(test)]
+mod tests {
+    use super::*;
+    use shuttle::sync::atomic::{AtomicU64, AtomicUsize, Ordering};
+
+    /// the shape of seeded `m42`: a slot whose key and value are published by two separate stores
+    fn torn_pair_program(bad: Arc<std::sync::atomic::AtomicBool>) -> impl FnOnce() + Send + 'static {
+        move || {
+            let key = Arc::new(AtomicU64::new(0));
+            let val = Arc::new(AtomicUsize::new(0));
+            let mut hs = vec![];
+            for me in 1..=2u64 {
+                let (key, val, bad) = (key.clone(), val.clone(), bad.clone());
+                hs.push(shuttle::thread::spawn(move || {
+                    for _ in 0..3 {
+                        if key.load(Ordering::Acquire) == me {
+                            if val.load(Ordering::Relaxed) != me as usize * 10 {
+                                bad.store(true, std::sync::atomic::Ordering::SeqCst);
+                            }
+                        } else {
+                            val.store(me as usize * 10, Ordering::Relaxed);
+                            key.store(me, Ordering::Release);
+                        }
+                    }
+                }));
+            }
+            for h in hs {
+                h.join().unwrap();
+            }
+        }
+    }
+
+    #[test]
+    fn the_scheduler_finds_a_torn_pair_and_the_explicit_schedule_reproduces_it() {
+        // never under the no-preemption default
+        let bad = Arc::new(std::sync::atomic::AtomicBool::new(false));
+        let (log, p) = run_under(Policy::Explicit, 0, &[], torn_pair_program(bad.clone()));
+        assert!(p.is_none());
+        assert!(!bad.load(std::sync::atomic::Ordering::SeqCst));
+        assert!(log.deviations.is_empty());
+        // found by the seeded search within a few hundred schedules
+        let mut found = None;
+        for seed in 0..400u64 {
+            let bad = Arc::new(std::sync::atomic::AtomicBool::new(false));
+            let policy = [Policy::Uniform, Policy::Sticky(100), Policy::Priority][(seed % 3) as usize];
+            let (log, p) = run_under(policy, seed, &[], torn_pair_program(bad.clone()));
+            assert!(p.is_none());
+            if bad.load(std::sync::atomic::Ordering::SeqCst) {
+                found = Some((seed, policy, log));
+                break;
+            }
+        }
+        let (seed, policy, log) = found.expect("a torn pair within 400 seeded schedules");
+        // the same seed gives the same schedule
+        let bad2 = Arc::new(std::sync::atomic::AtomicBool::new(false));
+        let (log2, _) = run_under(policy, seed, &[], torn_pair_program(bad2.clone()));
+        assert_eq!(log.picks, log2.picks);
+        assert!(bad2.load(std::sync::atomic::Ordering::SeqCst));
+        // and so does its explicit form (the deviations alone)
+        let bad3 = Arc::new(std::sync::atomic::AtomicBool::new(false));
+        let (log3, _) = run_under(Policy::Explicit, 0, &log.deviations, torn_pair_program(bad3.clone()));
+        assert_eq!(log.picks, log3.picks);
+        assert!(!log3.diverged);
+        assert!(bad3.load(std::sync::atomic::Ordering::SeqCst));
+    }
+
+    #[test]
+    fn a_deadlock_between_callers_is_reported_not_hung() {
+        let (_log, p) = run_under(Policy::Explicit, 0, &[(3, 2)], || {
+            let a = Arc::new(shuttle::sync::Mutex::new(0));
+            let b = Arc::new(shuttle::sync::Mutex::new(0));
+            let (a2, b2) = (a.clone(), b.clone());
+            let h = shuttle::thread::spawn(move || {
+                let _x = a2.lock().unwrap();
+                shuttle::thread::yield_now();
+                let _y = b2.lock().unwrap();
+            });
+            let h2 = shuttle::thread::spawn(move || {
+                let _y = b.lock().unwrap();
+                shuttle::thread::yield_now();
+                let _x = a.lock().unwrap();
+            });
+            let _ = h.join();
+            let _ = h2.join();
+        });
+        // either this schedule deadlocks (reported as a panic of the execution) or it completes;
+        // what must not happen is a hang of the harness — and some schedule does deadlock
+        let _ = p;
+        let mut deadlocked = false;
+        for seed in 0..200u64 {
+            let (_l, p) = run_under(Policy::Uniform, seed, &[], || {
+                let a = Arc::new(shuttle::sync::Mutex::new(0));
+                let b = Arc::new(shuttle::sync::Mutex::new(0));
+                let (a2, b2) = (a.clone(), b.clone());
+                let h = shuttle::thread::spawn(move || {
+                    let _x = a2.lock().unwrap();
+                    let _y = b2.lock().unwrap();
+                });
+                let h2 = shuttle::thread::spawn(move || {
+                    let _y = b.lock().unwrap();
+                    let _x = a.lock().unwrap();
+                });
+                let _ = h.join();
+                let _ = h2.join();
+            });
+            if let Some(m) = p {
+                assert!(m.to_lowercase().contains("deadlock"), "{}", m);
+                deadlocked = true;
+                break;
+            }
+        }
+        assert!(deadlocked);
+    }
 }
